@@ -71,6 +71,12 @@ pub enum VerifEvent {
 pub trait VerifActor: Send + Sync {
 	/// Called at a named yield point (never while a lock is held).
 	fn yield_point(&self, site: &'static str);
+	/// Called at a named point between two lock acquisitions, i.e. while the
+	/// caller HOLDS a lock. A scheduler that parks the caller here must be
+	/// prepared for other actors to block on that lock. Default: pass through.
+	fn yield_point_holding(&self, site: &'static str) {
+		let _ = site;
+	}
 	fn event(&self, ev: VerifEvent);
 }
 
@@ -89,6 +95,14 @@ pub(crate) fn yp(site: &'static str) {
 	let a = ACTOR.with(|c| c.borrow().clone());
 	if let Some(a) = a {
 		a.yield_point(site);
+	}
+}
+
+#[inline]
+pub(crate) fn yp_held(site: &'static str) {
+	let a = ACTOR.with(|c| c.borrow().clone());
+	if let Some(a) = a {
+		a.yield_point_holding(site);
 	}
 }
 
